@@ -6,6 +6,9 @@ import (
 	"runtime"
 	"sort"
 	"strings"
+	"sync"
+	"sync/atomic"
+	"time"
 
 	"github.com/elliotchance/gedcom/v39"
 )
@@ -260,6 +263,12 @@ func c11gen(r *Rand) *c11case {
 			cs.right[b].uids = []string{u2}
 			cs.kind = append(cs.kind, "ambiguous-unique-ids")
 		}
+	case r.Chance(1, 25):
+		cs.left, cs.right = nil, nil
+		cs.kind = append(cs.kind, "both-empty")
+	case r.Chance(1, 25) && len(cs.left) >= 1 && len(cs.right) >= 1:
+		cs.left, cs.right = cs.left[:1], cs.right[:1]
+		cs.kind = append(cs.kind, "single-individuals")
 	case r.Chance(1, 12):
 		cs.right = nil
 		cs.kind = append(cs.kind, "empty-right")
@@ -383,21 +392,109 @@ func c11compare(l, r *c11side, so gedcom.SimilarityOptions, jobs, gmp int) gedco
 }
 
 // c11compareWith runs Compare with a given options value (fresh, or one that already ran a comparison:
-// its sentA/sentB are never reset).
+// its sentA/sentB are never reset). A run that does not deliver is reported through c11problem.
 func c11compareWith(l, r *c11side, opts *gedcom.IndividualNodesCompareOptions, jobs, gmp int) gedcom.IndividualComparisons {
+	c11notifyTurn++ // in turn: no Notifier, an unbuffered one, a buffered one (as cmd/gedcom/diff.go: drained by the caller)
+	notify := c11notifyTurn % 3
+	out := c11run(l.indis, r.indis, opts, jobs, gmp, notify)
+	if out.problem != "" && c11problem != nil {
+		c11problem(out, jobs, gmp)
+	}
+	return out.res
+}
+
+var c11notifyTurn int
+
+// c11problem receives the runs in which Compare did not deliver (set by the runner).
+var c11problem func(out c11outcome, jobs, gmp int)
+
+type c11outcome struct {
+	res      gedcom.IndividualComparisons
+	problem  string // "" | what went wrong with the delivery
+	observed string
+	notify   string
+	progress []gedcom.Progress
+}
+
+var c11limit = 20 * time.Second // per-call time limit of c11run
+
+var c11slowWaits int32 // after a few "never closed" outcomes the wait is shortened (run time under a defect)
+
+// c11run calls Compare in its own goroutine with a time limit; notify: 0 = no Notifier, 1 = an
+// unbuffered one, 2 = a buffered one, drained by a goroutine as `for range options.Notifier` in
+// cmd/gedcom/diff.go does. The matching must be delivered: Compare returns, the Notifier is closed by
+// then (a caller ranging over it would otherwise wait forever) and the progress values make sense.
+// A hang is an outcome, not a crash of the harness (the stuck goroutines are abandoned).
+func c11run(left, right gedcom.IndividualNodes, opts *gedcom.IndividualNodesCompareOptions, jobs, gmp, notify int) c11outcome {
 	old := runtime.GOMAXPROCS(gmp)
 	defer runtime.GOMAXPROCS(old)
 	opts.Jobs = jobs
-	if jobs%2 == 0 { // as cmd/gedcom/diff.go does: a progress notifier drained by the caller
-		ch := make(chan gedcom.Progress)
+	out := c11outcome{notify: []string{"no Notifier", "unbuffered Notifier drained by a goroutine", "buffered Notifier (4) drained by a goroutine"}[notify]}
+	var mu sync.Mutex
+	var prog []gedcom.Progress
+	closed := make(chan struct{})
+	if notify > 0 {
+		var ch chan gedcom.Progress
+		if notify == 1 {
+			ch = make(chan gedcom.Progress)
+		} else {
+			ch = make(chan gedcom.Progress, 4)
+		}
 		opts.Notifier = ch
 		opts.NotifierStep = 1
 		go func() {
-			for range ch {
+			for p := range ch {
+				mu.Lock()
+				prog = append(prog, p)
+				mu.Unlock()
 			}
+			close(closed)
 		}()
 	}
-	return l.indis.Compare(r.indis, opts)
+	done := make(chan gedcom.IndividualComparisons, 1)
+	go func() { done <- left.Compare(right, opts) }()
+	select {
+	case out.res = <-done:
+	case <-time.After(c11limit):
+		out.problem = fmt.Sprintf("Compare did not return within %v", c11limit)
+		out.observed = "hang"
+		return out
+	}
+	if notify > 0 {
+		wait := 3 * time.Second
+		if atomic.LoadInt32(&c11slowWaits) >= 3 {
+			wait = 100 * time.Millisecond
+		}
+		select {
+		case <-closed:
+		case <-time.After(wait):
+			atomic.AddInt32(&c11slowWaits, 1)
+			out.problem = "the Notifier is not closed after Compare returned: a caller that ranges over it (gedcom diff does) waits forever"
+			out.observed = fmt.Sprintf("Compare returned %d results; Notifier still open after %v", len(out.res), wait)
+			return out
+		}
+		mu.Lock()
+		out.progress = append([]gedcom.Progress{}, prog...)
+		mu.Unlock()
+		// progress: at least the final notification, nothing negative, the last one complete
+		n := len(out.progress)
+		switch {
+		case n == 0:
+			out.problem, out.observed = "no progress was ever notified (not even the final one)", "0 notifications"
+		case out.progress[n-1].Done != out.progress[n-1].Total:
+			out.problem = "the final progress notification is not complete"
+			out.observed = fmt.Sprintf("last of %d: done %d of %d", n, out.progress[n-1].Done, out.progress[n-1].Total)
+		default:
+			for _, p := range out.progress {
+				if p.Done < 0 || p.Total < 0 || p.Total > int64(len(left))*int64(len(right)) {
+					out.problem = "a progress notification is out of range"
+					out.observed = fmt.Sprintf("done %d of %d with %d x %d individuals", p.Done, p.Total, len(left), len(right))
+					break
+				}
+			}
+		}
+	}
+	return out
 }
 
 // c11valid is the property on one result: every left and every right individual exactly once, no
@@ -527,6 +624,14 @@ func c11one(c *Ctx, idx int) {
 		return strings.Join(xs, ";")
 	}
 	amb := c11ambiguous(l, rt)
+	undelivered := false
+	c11problem = func(out c11outcome, jobs, gmp int) {
+		undelivered = out.res == nil
+		inp := in(jobs, gmp)
+		inp["notifier"] = out.notify
+		c.Oracle("", "the matching is not delivered: "+out.problem, inp, out.observed, "Compare returns, closes the Notifier and reports complete progress")
+	}
+	defer func() { c11problem = nil }()
 	ref := c11compare(l, rt, so, 1, 1)
 	refS := c11canon(ids, ref)
 	key := ""
@@ -534,6 +639,10 @@ func c11one(c *Ctx, idx int) {
 		c.Eval()
 		c.Count(fmt.Sprintf("run:jobs=%d", jobs))
 		c.Count(fmt.Sprintf("run:gomaxprocs=%d", gmp))
+		if undelivered {
+			undelivered = false
+			return // reported as not delivered
+		}
 		if v := c11valid(l, rt, so, res); v != "" {
 			c.Oracle(key, "the result is not a valid one-to-one matching: "+c11class(v), in(jobs, gmp), v+" | result: "+c11canon(ids, res), "every individual in exactly one result")
 		}
@@ -576,6 +685,166 @@ func c11one(c *Ctx, idx int) {
 	c.Nontrivial(refS + "|" + o.wire())
 	if idx < 2 {
 		c.Sample(map[string]interface{}{"documents": docs, "options": o.wire(), "sequential_result": refS})
+	}
+}
+
+// c11cold: the cold-cache parallel stress. Two documents whose ONLY matches are _UID matches (10-40
+// pairs; names, dates and pointers have nothing in common, so no pair comes near the threshold and no
+// two candidate pairs can tie). They are decoded afresh for EVERY run — nothing is remembered by any
+// node when the workers start — and matched with Jobs in {2,3,8,16} x GOMAXPROCS in {2,16}; every
+// result must be the sequential matching (each left individual with the right one carrying its _UID).
+func c11cold(c *Ctx) {
+	r := c.R.Fork("cold")
+	reps := c.N(160, 3000)
+	var lt, rtx string
+	var want string
+	n := 0
+	for rep := 0; rep < reps; rep++ {
+		if rep%20 == 0 { // a new pair of documents every 20 runs
+			n = 10 + r.Intn(31)
+			var lb, rb strings.Builder
+			lb.WriteString("0 HEAD\n")
+			rb.WriteString("0 HEAD\n")
+			order := r.Perm(n)
+			for i := 0; i < n; i++ {
+				fmt.Fprintf(&lb, "0 @L%d@ INDI\n1 NAME Abel%c /Lefthand%d/\n1 BIRT\n2 DATE %d\n1 DEAT\n2 DATE %d\n1 _UID %s\n",
+					i, 'a'+rune(i%26), i, 1650+i, 1700+i, c11uid(0xA000000+i*7919+rep))
+			}
+			for _, i := range order {
+				fmt.Fprintf(&rb, "0 @R%d@ INDI\n1 NAME Zygmunt%c /Quixote%d/\n1 BIRT\n2 DATE %d\n1 DEAT\n2 DATE %d\n1 _UID %s\n",
+					i, 'z'-rune(i%26), i, 1900+i, 1960+i, c11uid(0xA000000+i*7919+rep))
+			}
+			lb.WriteString("0 TRLR\n")
+			rb.WriteString("0 TRLR\n")
+			lt, rtx = lb.String(), rb.String()
+			var w []string
+			for i := 0; i < n; i++ {
+				w = append(w, fmt.Sprintf("L%d-R%d", i, i))
+			}
+			sort.Strings(w)
+			want = strings.Join(w, " ")
+		}
+		ld, err1 := gedcom.NewDocumentFromString(lt)
+		rd, err2 := gedcom.NewDocumentFromString(rtx)
+		if err1 != nil || err2 != nil {
+			panic("c11: cold-cache documents do not decode")
+		}
+		jobs, gmp := []int{2, 3, 8, 16}[rep%4], []int{2, 16}[(rep/4)%2]
+		if rep%20 == 0 {
+			jobs, gmp = 1, 1 // the sequential run itself, on fresh documents too
+		}
+		opts := gedcom.NewIndividualNodesCompareOptions()
+		out := c11run(ld.Individuals(), rd.Individuals(), opts, jobs, gmp, rep%3)
+		c.Eval()
+		c.Count("cold-cache stress:runs (fresh documents, _UID-only matches)")
+		in := map[string]interface{}{"left_document": lt, "right_document": rtx, "jobs": jobs, "gomaxprocs": gmp,
+			"note": "both documents decoded afresh for this run (cold caches); options: NewIndividualNodesCompareOptions()", "notifier": out.notify}
+		if out.problem != "" {
+			c.Oracle("", "the matching is not delivered: "+out.problem, in, out.observed, "Compare returns, closes the Notifier and reports complete progress")
+			if out.res == nil {
+				continue
+			}
+		}
+		var got []string
+		for _, x := range out.res {
+			a, b := "_", "_"
+			if x.Left != nil {
+				a = x.Left.Pointer()
+			}
+			if x.Right != nil {
+				b = x.Right.Pointer()
+			}
+			got = append(got, a+"-"+b)
+		}
+		sort.Strings(got)
+		if g := strings.Join(got, " "); g != want {
+			miss := 0
+			for _, p := range got {
+				if strings.HasSuffix(p, "-_") {
+					miss++
+				}
+			}
+			c.Oracle("", "cold caches, several jobs: the result differs from the sequential one (no score ties: the only matches are shared unique identifiers)",
+				in, fmt.Sprintf("%d of %d left individuals unmatched: %s", miss, n, g), want)
+		}
+	}
+}
+
+// c11large: a few large comparisons, result sizes around the capacities of the pipeline's channels
+// (1000): n individuals against an empty side (n rows, no comparison at all) and n against n matched by
+// _UID alone (n rows, no similarity matrix left), each under the per-call time limit — a Compare that
+// never returns is an outcome.
+func c11large(c *Ctx) {
+	mk := func(prefix string, n int) *gedcom.Document {
+		var sb strings.Builder
+		for i := 0; i < n; i++ {
+			fmt.Fprintf(&sb, "0 @%s%d@ INDI\n1 NAME P%d /Q%s/\n1 _UID %s\n", prefix, i, i, prefix, c11uid(0xB000000+i*104729))
+		}
+		d, err := gedcom.NewDocumentFromString(sb.String())
+		if err != nil {
+			panic("c11: large document does not decode")
+		}
+		return d
+	}
+	type lc struct{ nl, nr, jobs, notify int }
+	cases := []lc{{999, 0, 1, 1}, {1000, 0, 8, 0}, {1001, 0, 1, 0}, {0, 1001, 2, 1}, {1025, 0, 16, 2}, {2050, 0, 1, 0},
+		{1000, 1000, 8, 0}, {1001, 1001, 8, 1}, {1025, 1025, 3, 0}}
+	if !c.Quick() {
+		cases = append(cases, lc{0, 2050, 8, 2}, lc{2050, 2050, 16, 0}, lc{1001, 1001, 1, 2}, lc{1000, 1001, 2, 0})
+	}
+	old := c11limit
+	c11limit = 60 * time.Second
+	defer func() { c11limit = old }()
+	hangs := 0
+	for _, k := range cases {
+		if hangs >= 2 {
+			c.Count("large:skipped after two hangs")
+			continue
+		}
+		ld, rd := mk("L", k.nl), mk("R", k.nr)
+		opts := gedcom.NewIndividualNodesCompareOptions()
+		out := c11run(ld.Individuals(), rd.Individuals(), opts, k.jobs, 4, k.notify)
+		c.Eval()
+		c.Count("large:comparisons (999..2050 result rows)")
+		in := map[string]interface{}{"left": fmt.Sprintf("%d individuals @L0@..: 0 @Li@ INDI / 1 NAME Pi /QL/ / 1 _UID <uid i>", k.nl),
+			"right": fmt.Sprintf("%d individuals @R0@..: 0 @Ri@ INDI / 1 NAME Pi /QR/ / 1 _UID <uid i>", k.nr), "jobs": k.jobs, "gomaxprocs": 4,
+			"notifier": out.notify, "options": "NewIndividualNodesCompareOptions()"}
+		if out.problem != "" {
+			if out.res == nil {
+				hangs++
+				c11limit = 15 * time.Second
+			}
+			c.Oracle("", "the matching is not delivered: "+out.problem, in, out.observed, "Compare returns, closes the Notifier and reports complete progress")
+			if out.res == nil {
+				continue
+			}
+		}
+		want := k.nl
+		if k.nr > want {
+			want = k.nr
+		}
+		bad := ""
+		seenL, seenR := map[string]int{}, map[string]int{}
+		for _, x := range out.res {
+			if x.Left != nil {
+				seenL[x.Left.Pointer()]++
+			}
+			if x.Right != nil {
+				seenR[x.Right.Pointer()]++
+			}
+			if x.Left != nil && x.Right != nil && x.Left.Pointer()[1:] != x.Right.Pointer()[1:] {
+				bad = "pair " + x.Left.Pointer() + "-" + x.Right.Pointer() + " does not share a unique identifier"
+			}
+			if k.nl > 0 && k.nr > 0 && k.nl == k.nr && (x.Left == nil || x.Right == nil) {
+				bad = "an individual is left unmatched although its unique identifier is on the other side"
+			}
+		}
+		if len(out.res) != want || len(seenL) != k.nl || len(seenR) != k.nr {
+			bad = fmt.Sprintf("%d results with %d distinct left and %d distinct right individuals", len(out.res), len(seenL), len(seenR))
+		}
+		if bad != "" && !(k.nl != k.nr && k.nl > 0 && k.nr > 0) {
+			c.Oracle("", "large comparison: the result is not the one-to-one matching by unique identifier", in, bad, fmt.Sprintf("%d results, every individual once", want))
+		}
 	}
 }
 
@@ -645,11 +914,13 @@ func init() {
 	runners["C11"] = func(c *Ctx) {
 		c.Compare = c11cmp
 		c11skipped = func(s string) { c.Dist[s]++ }
-		c.Rule = "pairs of family-graph documents (edited copy: shared / disjoint / shifted pointers, dropped and added people, typos, identical twins, shared unique ids, a duplicated unique id, empty sides) x options (default and random, thresholds incl. 0 and 1) x Jobs in {0,1,2,3,8,16} x GOMAXPROCS in {1,2,16}; every run checked for validity, all runs of a case compared with the sequential one when no scores tie; the model is run on the sequential and on permuted arrival orders; distinct = distinct (sequential result, options)"
+		c.Rule = "pairs of family-graph documents (edited copy: shared / disjoint / shifted pointers, dropped and added people, typos, identical twins, shared unique ids, a duplicated unique id, empty sides) x options (default and random, thresholds incl. 0 and 1) x Jobs in {0,1,2,3,8,16} x GOMAXPROCS in {1,2,16}; every run goes through a delivery check (Compare in its own goroutine with a time limit; in turn no / unbuffered / buffered Notifier drained as gedcom diff does: it must be closed when Compare returns and the progress complete; empty left, empty right, both empty and single individuals included), is checked for validity, and all runs of a case are compared with the sequential one when no scores tie; cold-cache stress: documents whose only matches are _UID matches, decoded afresh for every run, Jobs {2,3,8,16} x GOMAXPROCS {2,16}, each compared with the sequential matching; large comparisons with 999..2050 result rows (one side empty; equal sides matched by _UID) under a time limit; the model is run on the sequential and on permuted arrival orders; distinct = distinct (sequential result, options)"
 		n := c.N(500, 6000)
 		for i := 0; i < n; i++ {
 			c11one(c, i)
 		}
+		c11cold(c)
+		c11large(c)
 		c11race(c)
 	}
 }
